@@ -285,8 +285,9 @@ fn query_atom(ctx: &mut Ctx, rel: &str, arity: usize, dom: &[i64]) -> Atom {
 
 /// `.why` for every answer of a query over every derived relation (plus one stored relation now and
 /// then), and direct `build_proof_tree` calls with small depth limits.
-pub fn gen_why(ctx: &mut Ctx, p: &str) -> Vec<String> {
-    let n = ctx.budget(420, 6000);
+pub fn gen_why(ctx: &mut Ctx, p: &str) -> Vec<String> { let n = ctx.budget(420, 6000); gen_why_n(ctx, p, n) }
+
+pub fn gen_why_n(ctx: &mut Ctx, p: &str, n: usize) -> Vec<String> {
     let mut out = vec![];
     for i in 0..n {
         let prog = gen_prog(ctx, i);
@@ -309,6 +310,54 @@ pub fn gen_why(ctx: &mut Ctx, p: &str) -> Vec<String> {
                 let d = ctx.below(5);
                 out.push(format!("{p}.bpt {} {} {} | {}", d, rel, tuple_to_wire(&Tuple::new(t)), items));
                 ctx.count(&format!("bpt_depth_{d}"));
+            }
+        }
+    }
+    out
+}
+
+/// C22: the C21 requests plus, for every derived relation of recursive / chained programs, direct
+/// `build_proof_tree` calls for EVERY tuple of the domain at depth limits 1..6 (the Lean side keeps
+/// the tuples that are true and whose reference depth is within the limit), and long-chain programs
+/// whose derivations reach the handler's limit of 50.
+pub fn gen_complete(ctx: &mut Ctx, p: &str) -> Vec<String> {
+    let mut out = gen_why_n(ctx, p, ctx.budget(220, 3000));
+    let n = ctx.budget(60, 1000);
+    for i in 0..n {
+        let prog = gen_prog(ctx, i * 5 + (i % 2)); // directed shapes twice as often
+        let items = items_wire(&prog);
+        for (rel, ar) in &prog.idb {
+            let mut tuples: Vec<Vec<i64>> = vec![vec![]];
+            for _ in 0..*ar { tuples = tuples.into_iter().flat_map(|t| prog.dom.iter().map(move |d| { let mut t2 = t.clone(); t2.push(*d); t2 })).collect(); }
+            for t in tuples {
+                let d = 1 + ctx.below(6);
+                let tw = Tuple::new(t.iter().map(|n| Value::Int64(*n)).collect());
+                out.push(format!("{p}.bpt {} {} {} | {}", d, rel, tuple_to_wire(&tw), items));
+                ctx.count("bpt_all_tuples");
+            }
+        }
+    }
+    // long chains e(1,2), …, e(k,k+1) with right- / left-linear closure: the proof of path(1,k+1) has
+    // depth k+1, explained by a direct build_proof_tree call at the handler's limit 50 (derived data
+    // from the all-variable query). A query that binds an argument of the recursive relation is NOT
+    // generated here: magic sets then replace `path` by `path_bf` in the derived data and the chainer
+    // re-derives by enumeration in time exponential in k (measured: k=5 11 s, k=6 > 60 s timeout).
+    let lens: Vec<usize> = if ctx.thorough { vec![5, 20, 40, 47, 48, 49, 50, 51, 55] } else { vec![5, 49, 50] };
+    for k in lens {
+        for left in [false, true] {
+            let (x, y, z) = (v("X"), v("Y"), v("Z"));
+            let mut items: Vec<Item> = (1..=k as i64).map(|i| fact("e", &[i, i + 1])).collect();
+            if left {
+                items.push(rule(atom("path", vec![x.clone(), y.clone()]), vec![pos("path", vec![x.clone(), z.clone()]), pos("e", vec![z.clone(), y.clone()])]));
+                items.push(rule(atom("path", vec![x.clone(), y.clone()]), vec![pos("e", vec![x.clone(), y.clone()])]));
+            } else {
+                items.push(rule(atom("path", vec![x.clone(), y.clone()]), vec![pos("e", vec![x.clone(), y.clone()])]));
+                items.push(rule(atom("path", vec![x.clone(), y.clone()]), vec![pos("e", vec![x.clone(), z.clone()]), pos("path", vec![z.clone(), y.clone()])]));
+            }
+            let iw = items.iter().map(item_to_wire).collect::<Vec<_>>().join(" ; ");
+            for target in [k as i64 + 1, (k as i64 + 1) / 2 + 1] {
+                out.push(format!("{p}.bpt 50 path i64:1,i64:{} | {}", target, iw));
+                ctx.count("long_chain");
             }
         }
     }
